@@ -140,7 +140,10 @@ fn mutations(objs: &[u8]) -> Vec<(String, Vec<u8>)> {
                 out
             };
             if h.objects.len() >= 2 {
-                v.push((format!("drop-object-in-header{n}"), rebuild(h.objects.iter().skip(1).collect())));
+                // drop each single object (dropping the last one leaves a faithful prefix)
+                for k in 0..h.objects.len() {
+                    v.push((format!("drop-object{k}-in-header{n}"), rebuild(h.objects.iter().enumerate().filter(|(i, _)| *i != k).map(|(_, o)| o).collect())));
+                }
                 v.push((format!("reorder-objects-in-header{n}"), rebuild(h.objects.iter().rev().collect())));
             }
             let mut more: Vec<&app::Obj> = h.objects.iter().collect();
@@ -583,7 +586,104 @@ impl CaseSpace for Outcomes {
     }
 }
 
+/// several user requests are waiting when the session fails: each gets exactly one outcome,
+/// promptly, and none of them is transmitted later
+struct Queued;
+
+impl CaseSpace for Queued {
+    fn name(&self) -> String {
+        "queued-requests-at-failure".to_string()
+    }
+    fn total(&self) -> usize {
+        4 * 3 * 2
+    }
+    fn run(&self, index: usize, transcript: bool) -> RunResult {
+        let mut res = RunResult::default();
+        let n = 1 + index % 4; // requests submitted
+        let fail = [Fail::Eof, Fail::Disable, Fail::RemoveAssociation][(index / 4) % 3];
+        let commands = (index / 12) % 2 == 1;
+        res.obs = index as u64 + 70000;
+        let mut sim = MSim::new(&MCfg { reconnect_delay_ms: 500, ..Default::default() }, 1);
+        let mut cfg = quiet();
+        cfg.max_queued_user_requests = 8;
+        let Some(a) = sim.add_association(OUTSTATION_ADDR, cfg) else {
+            return res;
+        };
+        sim.take_out();
+        sim.take_cb();
+        for i in 0..n {
+            let mut a2 = a.clone();
+            let name = format!("req{i}");
+            if commands {
+                let cmd = CommandBuilder::single_header_u8(crob(i as u32), 3);
+                sim.call(&name, async move { a2.operate(CommandMode::DirectOperate, cmd).await });
+            } else {
+                sim.call(&name, async move { a2.read(ReadRequest::class_scan(Classes::class0())).await });
+            }
+        }
+        let first = sim.take_out().iter().filter_map(|t| t.frag().map(|f| f.to_vec())).filter(|f| f.len() >= 2 && f[1] != fc::CONFIRM).count();
+        if first != 1 {
+            res.violation = Some(Violation::new("C16.Q0", "not-exactly-one-request-outstanding", format!("{first} requests written for {n} submissions")));
+            return res;
+        }
+        match fail {
+            Fail::Eof => sim.disconnect(),
+            Fail::Disable => {
+                let mut ch = sim.channel.clone();
+                sim.call("disable", async move { ch.disable().await });
+            }
+            _ => {
+                let mut ch = sim.channel.clone();
+                sim.call("remove", async move { ch.remove_association(dnp3::link::EndpointAddress::try_new(OUTSTATION_ADDR).unwrap()).await });
+            }
+        }
+        res.transitions += n + 1;
+        // no new session is offered: every request must be resolved by the failure itself
+        sim.advance((n as u64 + 2) * RT + 100);
+        let (cbs, _) = sim.take_cb();
+        for i in 0..n {
+            let name = format!("req{i}");
+            let done: Vec<&String> = cbs.iter().filter_map(|c| if let MCb::Done(nm, r) = c { if *nm == name { Some(r) } else { None } } else { None }).collect();
+            if transcript {
+                res.transcript.push(format!("{name}: {done:?}"));
+            }
+            if done.len() != 1 {
+                res.violation = Some(Violation::new(
+                    "C16.U1",
+                    format!("queued-request-not-resolved-exactly-once:{fail:?}"),
+                    format!("request {i} of {n} (submitted before the {fail:?}) has {} outcomes after {} response timeouts without a connection", done.len(), n + 2),
+                ));
+                return res;
+            }
+            if done[0].starts_with("Ok") {
+                res.violation = Some(Violation::new("C16.U3", format!("success-despite-failure:queued:{fail:?}"), format!("request {i}: {}", done[0])));
+                return res;
+            }
+        }
+        // a later session must not carry anything submitted before the failure
+        if fail == Fail::Eof {
+            sim.advance(600);
+            sim.connect();
+            sim.advance(3 * RT);
+            let stale: Vec<String> = sim.take_out().iter().filter_map(|t| t.frag().map(|f| app::hex(&f[..f.len().min(16)]))).collect();
+            if !stale.is_empty() {
+                res.violation = Some(Violation::new("C16.Q1", "request-issued-before-the-failure-sent-in-the-next-session".to_string(), format!("{stale:?}")));
+                return res;
+            }
+        }
+        if let Some(f) = sim.failure() {
+            res.violation = Some(Violation::new("C16.X0", f.clone(), f));
+        }
+        res.nontrivial = true;
+        res.model_states.push((n * 8 + fail as usize) as u64 + 1000);
+        res
+    }
+}
+
 pub fn replay(name: &str, path: &[usize]) -> Option<RunResult> {
+    if Queued.name() == name {
+        return Some(Queued.run(path[0], true));
+    }
     for tier in ["quick", "thorough"] {
         let e = build_echo(tier);
         if e.name() == name && path[0] < e.total() {
@@ -601,6 +701,7 @@ pub fn check(tier: &str) -> i32 {
     let mut c = Check::new("C16", tier);
     c.cases(&build_echo(tier));
     c.cases(&build_outcomes());
+    c.cases(&Queued);
     c.finish(
         "model_checking",
         "(1) 15 command sets (g12v1, g41v1..4 x {one object 8-bit index, two objects 16-bit index, two headers}) x {DIRECT_OPERATE, SELECT step, OPERATE step} x the faithful echo and every single mutation of it (every byte +-1, every status code in every object, header dropped / duplicated / appended, object dropped / added / reordered, empty reply): success must be reported iff the echo is faithful, OPERATE must follow only a faithful SELECT echo with the next sequence number and identical objects; (2) 18 request kinds (read, read with handler, direct and select-before-operate commands, LAN and non-LAN time synchronisation, cold / warm restart, dead-band write, empty-response request, link status check, file authentication / open / write block / close / info, directory read, file read with a FileReader) x {no failure, reply lost, connection lost, channel disabled, association removed} x failure at protocol step 0..3, plus a full request queue: the user future (or the FileReader's terminal callback) fires exactly once, with an error iff a failure was injected, within (steps + 2) response timeouts; non-trivial = the case ran to a verdict; distinct = distinct case",
